@@ -128,7 +128,9 @@ Proof.
   - (* SetItem *)
     unfold do_set in E. destruct (lookup a (attrs t)) as [at_|] eqn:La; [|inversion E; subst; same].
     destruct (ast at_) as [m|ne stamp rows] eqn:St.
-    + destruct (sparse_validate (aty at_) (asz at_) v) as [e|[[|] l]]; inversion E; subst; clear E; simpl; [same| |]; split.
+    + unfold sparse_vec_uses_attr_dtype, sparse_scal_converted in E.
+      destruct (sparse_validate (aty at_) (asz at_) v) as [e|[[|] l]]; [inversion E; subst; same| |];
+        (destruct (existsb (overflows (aty at_)) l); [inversion E; subst; same|]); inversion E; subst; clear E; simpl; split.
       * intros b j id H. apply entry_put in H. destruct H as [[Eb [m' [St' Lk]]]|[_ H]]; [|left; exact H].
         simpl in St'. inversion St'; subst m'. rewrite lookup_upsert in Lk. destruct (j =? key) eqn:Ej.
         -- inversion Lk. right. split; [reflexivity|]. apply Z.eqb_eq in Ej. subst. eauto.
@@ -139,7 +141,8 @@ Proof.
         left. subst b. exists at_, m. auto.
       * intros b id H. apply dcell_put in H. destruct H as [[Eb D]|[_ H]]; [|left; exact H]. left. subst b. exists at_. auto.
     + destruct (dense_oob key ne); [inversion E; subst; same|].
-      destruct (dense_validate (aty at_) (asz at_) v) as [e|[isv l]]; inversion E; subst; clear E; simpl; [same|]; split.
+      destruct (dense_validate (aty at_) (asz at_) v) as [e|[isv l]]; [inversion E; subst; same|].
+      destruct (existsb (overflows (aty at_)) l); [inversion E; subst; same|]. inversion E; subst; clear E; simpl; split.
       * intros b j id H. apply entry_put in H. destruct H as [[Eb [m' [St' Lk]]]|[_ H]]; [discriminate|left; exact H].
       * intros b id H. apply dcell_put in H. destruct H as [[Eb D]|[_ H]]; [|left; exact H]. left. subst b. exists at_. auto.
   - (* GetItem *)
@@ -175,6 +178,7 @@ Proof.
     unfold do_update in E. pose proof (do_get_attrs t a key) as GA. destruct (do_get t a key) as [s1 w1]. simpl in GA.
     destruct w1; try (inversion E; subst; rewrite GA; same). destruct isvec; [|inversion E; subst; rewrite GA; same].
     destruct ((c <? 0) || (c >=? Z.of_nat (length row))); [inversion E; subst; rewrite GA; same|].
+    destruct (match lookup a (attrs t) with Some at_ => overflows (aty at_) x | None => false end); [inversion E; subst; rewrite GA; same|].
     destruct (nth_error (refs s1) (length (refs t))) as [rf|]; [|inversion E; subst; rewrite GA; same].
     assert (S' : s' = mut_ref s1 rf c x) by (inversion E; reflexivity). subst s'. rewrite <- GA. by_mut s1 rf c x.
   - (* MutArr *)
@@ -286,6 +290,7 @@ Proof.
   - unfold do_update in E. pose proof (do_get_mono t a key) as G. destruct (do_get t a key) as [s1 w1]. simpl in G.
     destruct w1; try (inversion E; subst; exact G). destruct isvec; [|inversion E; subst; exact G].
     destruct ((c <? 0) || (c >=? Z.of_nat (length row))); [inversion E; subst; exact G|].
+    destruct (match lookup a (attrs t) with Some at_ => overflows (aty at_) x | None => false end); [inversion E; subst; exact G|].
     destruct (nth_error (refs s1) (length (refs t))) as [rf|]; [|inversion E; subst; exact G].
     assert (S' : s' = mut_ref s1 rf c x) by (inversion E; reflexivity). subst s'. eapply mono_trans; [exact G|apply mut_ref_mono].
   - unfold do_mut_arr in E. destruct (nth_error (refs t) r) as [[id|a st k|a st|]|]; try (inversion E; subst; fin).
